@@ -45,36 +45,23 @@ theorem roundtrip_fixpoint (tbl : Tables) {B : List String} {e : Expr}
     printed left-nested / parenthesised sample re-parses to itself; `)` and `,` are not operators -/
 theorem generated_tables_ok : ∀ t ∈ distinctTables, tablesOk t = true := by decide +kernel
 
-/-- non-vacuity: `a.b * (c + NOT 1 = 2) OR -x` is a faithful tree of the base tables -/
+/-- non-vacuity: `t."b" + (-x * 2)` is a faithful tree of the base tables (TERM level, Paren, unary minus, FACTOR level) -/
 example : ∃ B, Fits baseTables (.lad .outer baseTables.outer) B
-    (.bin "Or" (.bin "Mul" (.col [("a", false), ("b", true)]) (.paren (.bin "Add" (.col [("c", false)])
-      (.not (.bin "EQ" (.num "1") (.num "2")))))) (.neg (.col [("x", false)]))) := by
-  refine ⟨_, .ladLift (.spineBin "Or" "OR" "OR" (.spineOperand ?l) (by decide +kernel) (by decide +kernel) ?nl ?r)⟩
-  case l =>
-    -- a.b * ( … ) at CONJUNCTION level and below
-    refine .ladLift (.spineOperand (.baseOuter (.ladLift (.spineOperand (.ladLift (.spineOperand (.baseMid (.rangeLift
-      (.ladLift (.spineOperand (.ladLift (.spineOperand (.ladLift (.spineBin "Mul" "STAR" "*" (.spineOperand
-        (.ladLift (.spineOperand (.baseLower (.col _ _ (by decide)))))) (by decide +kernel) (by decide +kernel)
-        (by decide +kernel) (.ladLift (.spineOperand (.baseLower (.paren ?inner ?rp)))))))))))))))))))
-    case inner =>
-      refine .ladLift (.spineOperand (.ladLift (.spineOperand (.baseOuter (.ladLift (.spineOperand (.ladLift
-        (.spineOperand (.baseMid (.rangeLift (.ladLift (.spineOperand (.ladLift (.spineBin "Add" "PLUS" "+"
-          (.spineOperand (.ladLift (.spineOperand (.ladLift (.spineOperand (.baseLower (.col _ _ (by decide))))))))
-          (by decide +kernel) (by decide +kernel) (by decide +kernel)
-          (.ladLift (.spineOperand (.ladLift (.spineOperand (.baseLower (.not ?eq)))))))))))))))))))
-      case eq =>
-        exact .ladLift (.spineBin "EQ" "EQ" "=" (.spineOperand (.ladLift (.spineOperand (.baseMid (.rangeLift
-          (.ladLift (.spineOperand (.ladLift (.spineOperand (.ladLift (.spineOperand (.ladLift (.spineOperand
-            (.baseLower (.num "1")))))))))))))))
-          (by decide +kernel) (by decide +kernel) (by decide +kernel)
-          (.ladLift (.spineOperand (.baseMid (.rangeLift (.ladLift (.spineOperand (.ladLift (.spineOperand (.ladLift
-            (.spineOperand (.ladLift (.spineOperand (.baseLower (.num "2")))))))))))))))
-    case rp => decide +kernel
-  case nl => decide +kernel
-  case r =>
-    exact .ladLift (.spineOperand (.baseOuter (.ladLift (.spineOperand (.ladLift (.spineOperand (.baseMid (.rangeLift
-      (.ladLift (.spineOperand (.ladLift (.spineOperand (.ladLift (.spineOperand (.ladLift (.spineOperand
-        (.baseLower (.neg (.col _ _ (by decide))))))))))))))))))))
+    (.bin "Add" (.col [("t", false), ("b", true)])
+      (.paren (.bin "Mul" (.neg (.col [("x", false)])) (.num "2")))) := by
+  have hx : Fits baseTables (.lad .lower [baseTables.lower[2]!, baseTables.lower[3]!]) _
+      (.bin "Mul" (.neg (.col [("x", false)])) (.num "2")) :=
+    .ladLift (.spineBin "Mul" "STAR" "*" (.spineOperand (liftLad _ _ _ (.baseLower (.neg (.col _ _ (by decide))))))
+      (by decide +kernel) (by decide +kernel) (by decide +kernel) (liftLad _ _ _ (.baseLower (.num "2"))))
+  have hx' : Fits baseTables (.lad .lower baseTables.lower) _ (.bin "Mul" (.neg (.col [("x", false)])) (.num "2")) :=
+    .ladLift (.spineOperand (.ladLift (.spineOperand hx)))
+  have hp : Fits baseTables .unary unaryBlocked (.paren (.bin "Mul" (.neg (.col [("x", false)])) (.num "2"))) :=
+    .paren (liftTop _ hx') (by decide +kernel)
+  have hadd : Fits baseTables (.lad .lower (baseTables.lower.drop 1)) _
+      (.bin "Add" (.col [("t", false), ("b", true)]) (.paren (.bin "Mul" (.neg (.col [("x", false)])) (.num "2")))) :=
+    .ladLift (.spineBin "Add" "PLUS" "+" (.spineOperand (liftLad _ _ _ (.baseLower (.col _ _ (by decide)))))
+      (by decide +kernel) (by decide +kernel) (by decide +kernel) (liftLad _ _ _ (.baseLower hp)))
+  exact ⟨_, liftTop _ (.ladLift (.spineOperand hadd))⟩
 
 /-- KNOWN DEFECT (i), DESIGN §6: a negated range predicate as LEFT operand.  `a NOT IN (1) < b` parses to
     LT(Not(In)), prints as `NOT a IN (1) < b`, which re-parses as Not(LT(In, b)): the text is a fixpoint, the tree is not -/
